@@ -18,6 +18,7 @@ import c11
 import execsim as E
 import expprop
 import scripted as S
+import studysim as SS
 from corr import Case, compare, judge, account
 
 LEVEL = "other"
@@ -42,6 +43,33 @@ BATCHES = [{"type": "local"}, {"type": "slurm", "host": "h", "bank": "b", "queue
            # values are data, not shell text: nothing in them is expanded on the way
            {"type": "slurm", "host": "$HOSTNAME", "bank": "$HOME", "queue": "${PATH}", "reservation": "~"},
            {"type": "lsf", "host": "h", "bank": "$USER-$HOME", "queue": "%PATH%", "nodes": "$(NODES)"}]
+
+
+PGEN_FILE = '''from maestrowf.datastructures.core import ParameterGenerator
+
+
+class Sweep(ParameterGenerator):
+    """the user's own generator class, defined in the file given to --pgen"""
+
+    def get_metadata(self):
+        meta = super().get_metadata()
+        return meta
+
+
+def label_of(template):
+    return template
+
+
+TABLE = %r
+
+
+def get_custom_generator(env, **kwargs):
+    p_gen = Sweep()
+    p_gen.spell = label_of         # something else the file defines and the generator holds on to
+    for key, values, label in TABLE:
+        p_gen.add_parameter(key, values, p_gen.spell(label))
+    return p_gen
+'''
 
 
 def snapshot_case(ctx):
@@ -138,6 +166,25 @@ def run(ctx, escalated=False):
         spec["env"] = {"variables": {}}
         jobs.append({"id": c.data["id"], "spec": spec, "hash_ws": c.data["hash_ws"], "rlimit": c.data["rlimit"],
                      "pgen": 0, "batch": ctx.rng.choice(BATCHES), "throttle": 0, "attempts": 1, "symlink": False})
+        c.pgen = 0
+        cases.append(c)
+    # a generator of the user's own through the real command: `maestro run --pgen FILE`, where FILE defines
+    # a subclass of ParameterGenerator - the conductor's interpreter has never seen that file
+    for j in range(3 if quick else 40):
+        sp = SS.gen_spec(ctx.rng, os.path.join(ctx.scratch, "unused"), adversarial=False)
+        params = sp.pop("global.parameters", None)
+        if not params:
+            continue
+        sp["env"]["variables"].pop("OUTPUT_PATH", None)
+        c = expprop.one_case(ctx, "gen%d" % j, adversarial=False, pgen=False, spec=dict(sp, **{"global.parameters": params}))
+        if c is None or c.dag is None:
+            continue
+        c.data = {"id": "gen%d" % j, "kind": "handoff-pgen-file", "hash_ws": c.data["hash_ws"],
+                  "rlimit": c.data["rlimit"], "spec": sp, "table": params}
+        c.lines, c.impl_out = [], []
+        jobs.append({"id": c.data["id"], "spec": sp, "hash_ws": c.data["hash_ws"], "rlimit": c.data["rlimit"],
+                     "pgen": 0, "batch": ctx.rng.choice(BATCHES[:5]), "throttle": 0, "attempts": 1, "symlink": False,
+                     "cli_pgen": PGEN_FILE % [(key, p_["values"], p_["label"]) for key, p_ in params.items()]})
         c.pgen = 0
         cases.append(c)
     # the model comparison only applies to the studies without generator changes
